@@ -292,7 +292,9 @@ func OracleRebalance(tr *Trace) ([]Finding, int, bool) {
 				// A PUT travels over the asynchronous bus and is serialized behind the handler of its predecessor:
 				// without a delay (dynamic membership) it may legitimately be handled after the reopen began.
 				// Any notification issued less than 25 ms before the reopen is treated the same way.
-				if bre != 0 && ((eff[j].kind == "put" && delay == 0) || cycles[ci].BREW-eff[j].callW < int64(25*time.Millisecond)) {
+				// A notification whose call had not returned when the reopen began (an HTTP request that was slow to arrive,
+				// a GET waiting inside Rebalance()) may have reached the stream on either side of it as well.
+				if bre != 0 && ((eff[j].kind == "put" && delay == 0) || cycles[ci].BREW-eff[j].callW < int64(25*time.Millisecond) || eff[j].ret == 0 || eff[j].ret > bre) {
 					maxB++
 				}
 				j++
